@@ -114,6 +114,11 @@ func (fc *funcCtx) applyContract(st *State, ins ssa.Instruction, callee *ssa.Fun
 		}
 	}
 	site := fc.site(ins.Pos(), "call")
+	if site == "?" {
+		if ci, ok := ins.(ssa.CallInstruction); ok {
+			site = fc.site(ci.Common().Pos(), "call")
+		}
+	}
 	if callee == fc.fn {
 		// self-recursion: the measure must decrease and be bounded below
 		if con.Decreases != nil {
@@ -127,6 +132,11 @@ func (fc *funcCtx) applyContract(st *State, ins ssa.Instruction, callee *ssa.Fun
 	for i, r := range con.Requires {
 		g := fc.e.cevalBool(r.E, env)
 		fc.oblige(st, "pre@call", site+"/"+clauseLabel(r, i), g, "precondition of "+shortKey(con.Key)+": "+r.Src)
+	}
+	if isGo {
+		// a spawned goroutine: its preconditions must hold at the spawn; nothing about its
+		// (later) effects is assumed here
+		return TupleV{}
 	}
 	sig := callee.Signature.Results()
 	var results []Value
@@ -307,6 +317,9 @@ func (fc *funcCtx) send(st *State, x *ssa.Send) {
 func (fc *funcCtx) recv(st *State, x *ssa.UnOp) {
 	t := x.X.Type().Underlying().(*types.Chan).Elem()
 	v := fc.e.fresh(st, t, "recv")
+	if sc, ok := v.(Sc); ok && sc.S == SStr && fc.chanElemAscii(fc.chanName(x.X)) {
+		st.assume(app("gs.ascii", sc.T))
+	}
 	if x.CommaOk {
 		st.regs[x] = TupleV{v, Sc{st.freshConst("more", SBool), SBool}}
 	} else {
